@@ -132,6 +132,14 @@ def consumer_cases(rnd, vals, count):
                     a, b = b, a
                 if rnd.random() < 0.3:
                     a, b = [a], [b]
+            elif rnd.random() < 0.3:
+                # values the host language confuses or separates differently from the language's own comparison
+                d = datetime
+                a, b = rnd.choice([(1, True), (0, False), ([1], [True]), ({'a': 0}, {'a': False}), (d.date(2024, 1, 1), d.datetime(2024, 1, 1)),
+                                   (d.datetime(2024, 1, 1, 5, 30, tzinfo=TZ5), d.datetime(2024, 1, 1, 0, 0, tzinfo=UTC)),
+                                   (re.compile('a'), re.compile('a')), (len, len), (len, abs), (1.0, 1), ('1', 1), (None, False)])
+                if rnd.random() < 0.5:
+                    a, b = b, a
             out.append({'kind': 'ops', 'a': A.aval(a), 'b': A.aval(b), 'eq': ev('==', a, b), 'ne': ev('!=', a, b), 'lt': ev('<', a, b),
                         'le': ev('<=', a, b), 'gt': ev('>', a, b), 'ge': ev('>=', a, b), 'cmp': sc(a, b)})
         elif k < 0.45:
